@@ -5,12 +5,72 @@ K part: canonicalize_path (real code incl. the unsafe blocks) for ALL strings of
 1 <= len <= n, idempotence, and equality with an independent reference model (spec in hooks/canon.rs).
 M part (added with the loader harness): two spellings with equal canonical form resolve to one FileId.
 """
+import mirsym as M
+from mirsym import Agg, Cell, IntV, Ref, SliceRef
+from mirsym.models import as_slice, elems, val_eq
+from lib.driver import Violation
 from lib.kcheck import run_k
+from lib.mcheck import Replayer, finish_exploration, hexs, load_interp, merge_cov
 
 LEVEL = 'other'
 
 
+class CanonDiff:
+    """canonicalize_path vs the reference model spec_canon on n fully symbolic non-NUL bytes (engine M)"""
+
+    def __init__(self, I, n):
+        self.n = n
+        self.canon = I.fn('canonicalize_path', 'canon.rs')
+        self.spec = I.fn('spec_canon', 'canon.rs')
+        I.set_overrides([])
+
+    def run_path(self, I):
+        bs = [I.fresh_int('b%d' % i, 8) for i in range(self.n)]
+        for b in bs:
+            I.solver.add(b.v != 0)
+        s = M.string_of(list(bs))
+        sc = Cell(s)
+        I.call_fn(self.canon, [Ref(sc, ())])
+        got = list(s.fields[0].fields)
+        want = I.call_fn(self.spec, [SliceRef(Cell(Agg('bytes', list(bs))), (), 0, self.n)])
+        if not (1 <= len(got) <= self.n):
+            I.fail('canon-length', 'canonical form of a %d-byte path has %d bytes' % (self.n, len(got)))
+        if len(got) != len(want.fields):
+            I.fail('canon-differs', 'canonical form has %d bytes, the reference model gives %d' % (len(got), len(want.fields)))
+        for g, w in zip(got, want.fields):
+            I.oblige(I.binop('Eq', g, w), 'canon-differs', 'canonical form differs from the reference model')
+        before = list(got)
+        I.call_fn(self.canon, [Ref(sc, ())])
+        again = s.fields[0].fields
+        if len(again) != len(before):
+            I.fail('canon-not-idempotent', 'canonicalising twice changes the length')
+        for g, w in zip(again, before):
+            I.oblige(I.binop('Eq', g, w), 'canon-not-idempotent', 'canonicalising twice changes the path')
+        return len(got)
+
+
+def run_m(ctx, out):
+    I = load_interp(ctx)
+    rep = Replayer(ctx.tree)
+    cov = out.coverage
+    for n in ((1, 2, 3, 4, 5, 6) if ctx.quick() else (1, 2, 3, 4, 5, 6, 7, 8)):
+        H = CanonDiff(I, n)
+        ex = M.explore(I, H, jobs=ctx.jobs, time_budget=1200 if ctx.quick() else 4 * 3600)
+        name = 'M: canonicalize_path vs spec_canon, %d symbolic bytes (all non-NUL values)' % n
+        merge_cov(cov, name, ex)
+        finish_exploration(out, ex, name)
+        for key, lst in ex.failures.items():
+            for desc, model, extra in lst[:2]:
+                bs = bytes((model or {}).get('b%d' % i, 97) for i in range(n))
+                ans = rep.ask('canonspec ' + hexs(bs))
+                bad = not ans.startswith('ok same')
+                out.add(Violation('M:canon:' + key, '%s; path %r -> %s' % (desc, bs, ans[:200]),
+                                  replay={'cmd': 'canonspec', 'bytes_hex': bs.hex()}, reproduced=bad))
+    rep.close()
+
+
 def run(ctx, out):
+    run_m(ctx, out)
     if ctx.quick():
         safe, full = range(1, 7), range(1, 5)
         timeout = 900
@@ -34,10 +94,26 @@ def run(ctx, out):
         'obligations': sum(k['checks'] for k in ks),
         'discharged': sum(k['checks'] for k in ks if k['status'] == 'PASS'),
         'solver_s': round(sum(k['solver_s'] for k in ks), 1),
-        'evaluations': len(ks), 'distinct_nontrivial': len(ks),
+        'evaluations': len(ks) + out.coverage.get('paths', 0), 'distinct_nontrivial': len(ks) + out.coverage.get('paths', 0),
         'rule': 'one Kani harness per path length and obligation set; each is a single solver verdict over all strings of that length',
         'samples': [{'harness': k['harness'], 'status': k['status'], 'checks': k['checks'], 'covers': k['covers']} for k in ks],
         'outside_the_claim': ['paths longer than the stated lengths', 'more than 60 components (property precondition)',
                               'bytes other than the six-letter alphabet (the code compares only against / \\ .)'],
     })
-    out.assumptions += ['Kani/CBMC memory model', 'reference model spec_canon (hooks/canon.rs) is the meaning of "equivalent spelling"']
+    out.coverage['explanation'] += ('  Engine M repeats the differential on the MIR with every non-NUL byte value (not only the '
+                                    'six-letter alphabet) for all lengths up to the bound, including idempotence.')
+    out.assumptions += ['Kani/CBMC memory model', 'std models used by mirsym (listed)', 'reference model spec_canon (hooks/canon.rs) is the meaning of "equivalent spelling"']
+
+
+def replay(ctx, cex):
+    r = cex['replay']
+    if r.get('cmd') == 'canonspec':
+        rep = Replayer(ctx.tree)
+        ans = rep.ask('canonspec ' + (r['bytes_hex'] or '-'))
+        bad = not ans.startswith('ok same')
+        print(('REPRODUCED: ' if bad else 'NOT-REPRODUCED: ') + ans[:300])
+        return 1 if bad else 0
+    from lib import kani
+    rep, detail = kani.replay_native(ctx.tree, r['harness'])
+    print(('REPRODUCED: ' if rep else 'NOT-REPRODUCED: ') + str(detail))
+    return 1 if rep else 0
